@@ -83,6 +83,14 @@ def immediate_case():
     return [13, [0, 0, 0]]
 
 
+def guard_case(kind, prefix):
+    return [16, int(kind), list(prefix) + fair(2, 6)]
+
+
+def store_read_case(prefix):
+    return [17, list(prefix) + fair(2, 4)]
+
+
 def read_case(prefix):
     return [7, list(prefix) + fair(2, 3)]
 
@@ -163,6 +171,13 @@ def generate(rng, tier):
         yield dict(case=memolock_case(0, sch), kind="memo-lock-order")
         yield dict(case=memolock_case(1, sch), kind="memo-lock-order-log", compare=False)
     yield dict(case=immediate_case(), kind="memo-immediate")
+    # ---- 15-17. read guards / synchronous reads of an async derived value vs the completion of a reload
+    yield dict(case=[15], kind="guard-one-thread")
+    for kind in (0, 1):
+        for sch in interleavings([3, 2]):
+            yield dict(case=guard_case(kind, sch), kind="guard-two-threads")
+    for sch in interleavings([2, 1]):
+        yield dict(case=store_read_case(sch), kind="read-vs-store")
     # ---- 7. a signal read against a write that holds the value lock
     for sch in interleavings([2, 1]):
         yield dict(case=read_case(sch), kind="read-vs-write")
@@ -201,6 +216,12 @@ def valid_case(item):
             return len(c) == 3 and c[1] in (0, 1) and all(t in (0, 1) for t in c[2]) and c[2][-28:] == fair(2, 14)
         if op == 13:
             return len(c) == 2 and c[1] == [0, 0, 0]
+        if op == 15:
+            return c == [15]
+        if op == 16:
+            return len(c) == 3 and c[1] in (0, 1) and all(t in (0, 1) for t in c[2]) and c[2][-12:] == fair(2, 6)
+        if op == 17:
+            return len(c) == 2 and all(t in (0, 1) for t in c[1]) and c[1][-8:] == fair(2, 4)
         if op == 7:
             return len(c) == 2 and all(t in (0, 1) for t in c[1]) and c[1][-6:] == fair(2, 3)
         if op == 9:
@@ -291,6 +312,20 @@ def oracle(item, impl):
             if 2 * (a - 1) != b:
                 return "effect run saw (a, b) = (%d, %d): no single value of s gives both (mid-notification read)" % (a, b)
         return None
+    if op in (15, 16, 17):
+        (st, v), fin, hang = impl
+        what = {15: "a by_ref() guard kept across an await on the executor thread of the reload",
+                16: "a synchronous read guard held on another thread until a task queued behind the reload releases it",
+                17: "a synchronous read while the value's task stores the reload"}[op]
+        if hang:
+            return "a thread is blocked forever (%s)" % what
+        if st == 3:
+            return "a synchronous read of the async derived value panicked / saw it as disposed (%s)" % what
+        if st != 1:
+            return "the reader did not finish within the bounded extra steps (%s)" % what
+        if v not in (1, 2) or fin != 2:
+            return "read %d / final %d is not a value of some sequential order (%s)" % (v, fin, what)
+        return None
     if op == 13:
         return "thread blocked forever: self-deadlock (memo notifies an ImmediateEffect under its lock)" if impl[0] else None
     if op == 11:
@@ -368,17 +403,19 @@ def nontrivial(item, model):
     if c[0] == 9:
         return True
     sched = c[-1]
-    if c[0] == 13:
+    if c[0] in (13, 15):
         return True
-    n = {1: lambda: len(c[1]) + 1, 2: lambda: len(c[2]) + 1, 3: lambda: len(c[1]), 4: lambda: 2, 5: lambda: 2,
+    n = {16: lambda: 2, 17: lambda: 2, 1: lambda: len(c[1]) + 1, 2: lambda: len(c[2]) + 1, 3: lambda: len(c[1]), 4: lambda: 2, 5: lambda: 2,
          7: lambda: 2, 10: lambda: 2, 11: lambda: 2}[c[0]]()
-    tail = n * (14 if c[0] in (5, 11) else 3 if c[0] == 7 else FAIR_ROUNDS)
+    tail = n * (14 if c[0] in (5, 11) else 3 if c[0] == 7 else 6 if c[0] == 16 else 4 if c[0] == 17 else FAIR_ROUNDS)
     pre = sched[:-tail] if tail else sched
     switches = sum(1 for a, b in zip(pre, pre[1:]) if a != b)
     return switches >= 2
 
 
-NAMES = {10: "await path, waker callbacks as yield points", 11: "lock order signal -> memo -> effect",
+NAMES = {15: "by_ref guard across an await vs reload (one executor thread)",
+         16: "sync read guard on another thread vs reload", 17: "sync read vs the store of a reload",
+         10: "await path, waker callbacks as yield points", 11: "lock order signal -> memo -> effect",
          13: "signal -> memo -> ImmediateEffect on one thread", 9: "random stress with watchdog", 7: "signal read vs write holding the lock", 1: "await path", 2: "effect channel", 3: "signal writes / memo pulls", 4: "mid-notification read",
          5: "lock order notify_subs vs effect re-run"}
 
@@ -429,7 +466,8 @@ ASSUMPTIONS = [
     "wakers only set a flag / schedule the task (a waker that polls the task inline from inside wake() is outside the model)",
     "one completion round of the async derived value per case (reloads are a sequence of such rounds)",
     "user callbacks instrumented as yield points: the awaiter's waker clone / wake_by_ref and the entry of the effect's mark_check / "
-    "mark_dirty; NOT instrumented: waker drop, wake under the drain lock, closures of memos/effects/fetchers, Drop of stored values",
+    "mark_dirty, the Drop of the value replaced by a reload (inside the value's write lock); NOT instrumented: waker drop, wake "
+    "under the drain lock, closures of memos/effects/fetchers",
 ]
 LEVEL_TEXT = ("Coq proofs about executable protocol models transcribed from the code (await path of async derived values for any number "
               "of awaiters and every schedule: no lost wake-up and the completer cannot be stuck; effect notification channel for any "
